@@ -317,6 +317,13 @@ def _link(st, args):
 # Engine
 # ---------------------------------------------------------------------------
 
+def queue_timeout(st, err):
+    """A TimeoutError that the simulated load explains: at least DEFAULT_TIMEOUT virtual seconds of compile work
+    had been started when it was raised (a necessary condition for any wait to last that long without a stall)."""
+    from loki.jit_build.workqueue import DEFAULT_TIMEOUT  # pylint: disable=import-outside-toplevel
+    return isinstance(err, TimeoutError) and st.service_total >= DEFAULT_TIMEOUT
+
+
 class BuildEngine(Engine):
     name = 'poolsim/build'
     props = ('C44',)
@@ -328,7 +335,7 @@ class BuildEngine(Engine):
              'subprocess.run -> stub compiler/linker (reads .mod of used modules, writes .mod/.o, content hashes)',
              'networkx.topological_sort in loki.jit_build.lib -> choose-driven valid order', 'clock -> virtual')
     fault_kinds = ('fault_compile_error_fired', 'fault_stall_fired', 'timeout_fired')
-    probes = ('rebuild_steps', 'wait_hit_unfinished_task', 'stub_missing_mod', 'topo_choice_points', 'sched_choice_points',
+    probes = ('timeout_by_queueing', 'rebuild_steps', 'wait_hit_unfinished_task', 'stub_missing_mod', 'topo_choice_points', 'sched_choice_points',
               'stale_mod_present', 'header_transitive_dep')
     nontrivial_rule = ('a run is non-trivial if the scheduler had >=2 runnable actors at some step or the '
                        'topological tie-break had >=2 ready nodes; distinct = distinct event-history digest')
@@ -654,7 +661,7 @@ class BuildEngine(Engine):
                 run.violate('lib-differs', f'build step {k}: parallel library {st.lib!r} != serial library '
                                            f'{rst.lib!r}')
             if (err is None) != (rerr is None) and not scenario['stall'] and \
-                    not isinstance(err, (pool.SimDeadlock, pool.SimStepCap)):
+                    not isinstance(err, (pool.SimDeadlock, pool.SimStepCap)) and not queue_timeout(st, err):
                 run.violate('outcome-differs', f'build step {k}: serial build: {rerr!r}; parallel build: {err!r}')
         first_fails = bool((scenario.get('rebuild') or {}).get('first_fails'))
         deps_ = model_deps(scenario)
@@ -734,7 +741,11 @@ class BuildEngine(Engine):
         else:
             if links:
                 run.violate('linked-after-failure', f'[{tag}] build raised {err!r} but a library was linked')
-            if not faulty:
+            if queue_timeout(st, err):
+                # Loki waits a fixed DEFAULT_TIMEOUT for each task from the moment it starts waiting, queueing
+                # time included: >= that much compile work had been started, the timeout is the documented outcome
+                run.probe('timeout_by_queueing')
+            elif not faulty:
                 run.violate('build-failed', f'[{tag}] fault-free build raised {type(err).__name__}: '
                                             f'{str(err)[:300]}')
             elif fail and not scenario['stall']:
